@@ -44,7 +44,12 @@ func (c *deferInfoCollector) EnterSelectionSet(ref int) {
 		if !ok {
 			continue
 		}
-		if _, seen := c.descriptors[id]; seen {
+		if d, seen := c.descriptors[id]; seen {
+			// The fragment's own top-level fields may have been merged into fields selected outside
+			// of it; its fields then surface in several deeper selection sets. The renderer computes
+			// subPath relative to the descriptor path, so the path must be a prefix of all of them.
+			d.Path = commonPathPrefix(d.Path, c.deferPath())
+			c.descriptors[id] = d
 			continue
 		}
 		c.descriptors[id] = resolve.DeferDescriptor{
@@ -54,6 +59,14 @@ func (c *deferInfoCollector) EnterSelectionSet(ref int) {
 			Path:     c.deferPath(),
 		}
 	}
+}
+
+func commonPathPrefix(a, b []string) []string {
+	n := 0
+	for n < len(a) && n < len(b) && a[n] == b[n] {
+		n++
+	}
+	return a[:n:n]
 }
 
 // deferPath returns the response path of the inline fragment for the defer
